@@ -469,7 +469,7 @@ def build_hexconst(args, features):
             raise AssembleError('hexconst %s in %s is not a Felt hex literal constant' % (name, path))
         h = lits[0].strip('"')
         val = int(h, 16) % P
-        out.append('#[verifier::external_body] %s exec const %s: Felt ensures %s@ == 0x%xnat { unimplemented!() }'
+        out.append('#[verifier::external_body] %s exec const %s: Felt ensures %s@ == 0x%xnat { crate::prelude::Felt::stub() }'
                    % (vis, name, name, val))
     return '\n'.join(out) + '\n'
 
@@ -503,8 +503,10 @@ def build_from_variants(args, features):
                 jj, _ = skip_attrs(rtoks, k + 1)
                 ty = normalize(rtoks, jj, e, features, cm, [])
                 tytxt = ''.join(texts(ty))
-                out.append('impl From<%s> for %s { fn from(e: %s) -> (r: %s) ensures r == %s::%s(e) { %s::%s(e) } }'
-                           % (tytxt, ename, tytxt, ename, ename, vname, ename, vname))
+                out.append('impl vstd::std_specs::convert::FromSpecImpl<%s> for %s { open spec fn obeys_from_spec() -> bool { true } open spec fn from_spec(e: %s) -> %s { %s::%s(e) } }'
+                           % (tytxt, ename, tytxt, ename, ename, vname))
+                out.append('impl From<%s> for %s { fn from(e: %s) -> %s { %s::%s(e) } }'
+                           % (tytxt, ename, tytxt, ename, ename, vname))
             k = e + 1
         elif k < hi and is_p(rtoks[k], '{'):
             k = match_close(rtoks, k) + 1
@@ -530,8 +532,21 @@ def assemble(fragments, features, out_path):
         out.append(s)
         line_no += s.count('\n')
 
+    def load(frag, depth=0):
+        """template text with //@include <file> expanded (relative to the including file)"""
+        res = []
+        for l in open(frag).read().split('\n'):
+            m = re.match(r'^\s*//@include\s+(\S+)', l)
+            if m:
+                if depth > 8:
+                    raise AssembleError('include depth')
+                res += load(os.path.join(os.path.dirname(frag), m.group(1)), depth + 1)
+            else:
+                res.append(l)
+        return res
+
     for frag in fragments:
-        lines = open(frag).read().split('\n')
+        lines = load(frag)
         i = 0
         while i < len(lines):
             m = DIRECTIVE.match(lines[i])
